@@ -375,3 +375,16 @@ Print Assumptions C15_total_is_running_sum.
 Print Assumptions C15_asset_cost_is_sum.
 Print Assumptions C15_E_linear.
 Print Assumptions C15_weights_nonvacuous.
+
+(** Source tie (regenerated on every run).  The sold percentage per lot that open_positions turns into unsold amounts, computed
+    from the tables the translator reads from the sold-percentage loop of ComputedData.__init__ (Model/GeneratedTie.v
+    [gen_sold_*]: it iterates the FILTERED gain/loss set, skips fractions without lot or whose lot is dated outside the window,
+    accumulates acquired_lot_fraction_percentage; interpreter [sold_pct_gen] of Model/ComputedGen.v), is the [sold_pct_add] fold
+    of [compute].  An edit that fuses the loop into the one over the unfiltered set makes this theorem stop compiling
+    (Proofs/ComputedGenSold.v). *)
+From RP2V Require Import Model.GeneratedTie Model.ComputedGen Proofs.ComputedGenSold.
+Theorem C15_source_tie_sold_percentage :
+  forall (from_day to_day : Z) (gls : list gl),
+    sold_pct_gen from_day to_day gls = fold_left (sold_pct_add from_day to_day) (iter_window g_day from_day to_day gls) (Ok []).
+Proof. exact sold_pct_gen_agrees. Qed.
+Print Assumptions C15_source_tie_sold_percentage.
